@@ -467,7 +467,7 @@ class Render:
                 ft = f["t"]
                 if self.types[ft // 2]["kind"] == "iface":
                     continue
-                if ft // 2 == k:
+                if ft // 2 == k or f["name"] == "_":
                     continue
                 sub = self.mkval_leaf(ft, '%s + ".%s"' % (idexpr, f["name"]), pkg)
                 inner.append("%s: %s" % (f["name"], sub))
@@ -530,7 +530,7 @@ class Render:
                 k = pr["outs"][0] // 2
                 tq = self.tq(k, pkg) + self.tn(k)
                 fields = self.types[k]["fields"]
-                allsp = [f["name"] for f in fields if not self.prevented(f["tag"])]
+                allsp = [f["name"] for f in fields if not self.prevented(f["tag"]) and f["name"] != "_"]
                 self.set_lits(pr)
                 out.append("wire.Struct(new(%s)%s)" % (tq, "".join(", " + l for l in pr["_lits"])))
             else:
@@ -557,7 +557,7 @@ class Render:
             pr["_lits"] = list(pr["_custom_lits"])
             return
         fields = self.types[pr["outs"][0] // 2]["fields"]
-        allsp = [f["name"] for f in fields if not self.prevented(f["tag"])]
+        allsp = [f["name"] for f in fields if not self.prevented(f["tag"]) and f["name"] != "_"]
         if self.p["star"] and allsp == pr["fields"]:
             pr["_lits"] = ['"*"']
         else:
@@ -602,6 +602,8 @@ class Render:
             L.append("type %s struct {\n%s\n}\n" % (n, "\n".join(fl)))
             parts = []
             for f in td["fields"]:
+                if f["name"] == "_":        # a blank field can be neither read nor set
+                    continue
                 parts.append('"%s:" + %s' % (f["name"], self.desc("x." + f["name"], f["t"], which)))
             lit = ' + "," + '.join(parts) if parts else '""'
             L.append('func (x %s) Desc() string {\n\tif x.ID != "" {\n\t\treturn x.ID\n\t}\n\tif x == (%s{}) {\n\t\treturn "zero"\n\t}\n\treturn "%s{" + %s + "}"\n}\n' % (n, n, "T%d" % k, lit))
